@@ -393,6 +393,18 @@ func (v6proto) BuildReply(reqWire []byte, kind replyKind, serial uint32, altXid 
 		rep.MessageType = dhcpv6.MessageTypeRelayReply // not a Message: the client's decoder refuses it
 	}
 	b := rep.ToBytes()
+	if kind == rkRequestOp && serial%2 == 1 {
+		// a well-formed relay envelope around an acceptable reply that carries the call's
+		// transaction id: a relay message has no transaction id of its own and is not for a client
+		rep.MessageType = dhcpv6.MessageTypeAdvertise
+		typ := dhcpv6.MessageTypeRelayReply
+		if serial%4 == 1 {
+			typ = dhcpv6.MessageTypeRelayForward
+		}
+		if r, err := dhcpv6.EncapsulateRelay(rep, typ, net.ParseIP("2001:db8::1"), net.ParseIP("fe80::1")); err == nil {
+			b = r.ToBytes()
+		}
+	}
 	switch kind {
 	case rkTruncated:
 		if n := 5 + int(serial%20); n < len(b) {
